@@ -171,10 +171,23 @@ def origins_for(total):
     return o
 
 
-def mcase(ops):
-    """the same history from clock origins 5000, 0, 2^31 -+ k, 2^32 - k for k = 1, 500, duration of the history"""
+def mcase(ops, aim=10):
+    """the same history from clock origins 5000, 0, 2^31 -+ k, 2^32 - k for k = 1, 500, duration of the history - and from origins that
+    put the instant of one of its messages (requests are sent while a message is handled) exactly on the 32-bit clock value 0 (seed C13-10:
+    a stored request time of 0 taken for 'never requested'); `aim` such instants per history, spread over it"""
     total = sum(int(o.split()[1]) for o in ops if o.startswith('M '))
-    return 'DLS %s | %s' % (','.join(str(x) for x in origins_for(total)), ' ; '.join(ops))
+    og = origins_for(total)
+    ts, t = [], 0
+    for o in ops:
+        if o.startswith('M '):
+            t += int(o.split()[1])
+            if t > 0 and t not in ts:
+                ts.append(t)
+    step = max(1, len(ts) // aim)
+    for x in ts[::step][:aim + 2]:
+        if (1 << 32) - x not in og:
+            og.append((1 << 32) - x)
+    return 'DLS %s | %s' % (','.join(str(x) for x in og), ' ; '.join(ops))
 
 
 def pacing_walk(r, nops):
